@@ -60,6 +60,7 @@ type slicer struct {
 	pseen     map[*ssa.Parameter]bool
 	seenAlloc map[*ssa.Alloc]bool
 	seenField map[string]bool
+	privDepth int
 }
 
 func backSlice(v ssa.Value, o *SliceOpts) []Leaf {
@@ -496,9 +497,15 @@ func (s *slicer) param(p *ssa.Parameter) {
 		s.walk(a, -1)
 		return
 	}
-	if !s.o.FollowParams {
+	// a parameter of an unexported helper is what its callers (all in the module) pass: a value
+	// handed to a helper that finishes the computation is still followed to where it came from
+	if !s.o.FollowParams && !(isPrivateHelper(p.Parent()) && s.privDepth < 1) {
 		s.leaf(p, LeafOpaque, "parameter "+p.Name()+" of "+fnName(p.Parent()))
 		return
+	}
+	if !s.o.FollowParams {
+		s.privDepth++
+		defer func() { s.privDepth-- }()
 	}
 	if s.pseen[p] {
 		return
@@ -572,7 +579,9 @@ func (s *slicer) call(c *ssa.Call, idx int) {
 		return
 	}
 	callee := staticCallee(c)
-	if callee != nil && inRepo(callee) && len(callee.Blocks) > 0 && s.depth < s.o.EnterDepth {
+	// an unexported helper of the module is entered one level further than asked for: a value
+	// computation moved into a helper (`chars = trimTrailingZeros(chars)`) is still the same computation
+	if callee != nil && inRepo(callee) && len(callee.Blocks) > 0 && (s.depth < s.o.EnterDepth || (s.depth < s.o.EnterDepth+1 && isPrivateHelper(callee))) {
 		// bind params and follow return values
 		args := c.Call.Args
 		saved := map[*ssa.Parameter]ssa.Value{}
@@ -778,4 +787,13 @@ func mayValues(v ssa.Value) []ssa.Value {
 		return out
 	}
 	return []ssa.Value{v}
+}
+
+// isPrivateHelper: an unexported function or method declared in the module (not a closure).
+func isPrivateHelper(f *ssa.Function) bool {
+	if f.Parent() != nil || f.Synthetic != "" {
+		return false
+	}
+	o := f.Object()
+	return o != nil && !o.Exported()
 }
